@@ -142,7 +142,7 @@ def gen_cases(ctx):
     return cases
 
 
-def observe(case):
+def _observe(case):
     import jax
     import jax.numpy as jnp
     import numpy as np
@@ -201,6 +201,12 @@ def observe(case):
         rec["n_sources"] = len(cfg.get("sources", []))
         rec["component_counts"] = Y.component_counts(arrays)
     return rec
+
+
+def observe(case):
+    from harness import yee_sys as Y
+
+    return Y.safe_observe(_observe, case, "reverse", TOL)
 
 
 def classify(rec, verdict):
